@@ -42,7 +42,7 @@ def main(tier_):
             cases.append(dict(id="copy|%d|%d|%d" % (L, B, nullsize), tree=tree, feat={}, trace=False, calls=[dict(op="capi_copy", api="c", path="lnk", B=B, nullsize=nullsize)],
                               meta=dict(kind="copy", c=c, e=cc["e"], body=body)))
     # long bodies (PATH_MAX-sized) and the procfs variant around the real length
-    for L in ((255, 1024) if tier_ == "quick" else (255, 1024, 4000, 4095)):
+    for L in (255, 1024, 4094, 4095):      # 4095 = the longest link body the kernel stores
         body = ("x" * 200 + "/") * 30
         body = body[:L]
         for B in (-1, 0, 1, L - 1, L, L + 1, L + 100):
